@@ -194,6 +194,14 @@ def edgeLoop (o : Oracles) (αb : Rat) (L i : Nat) (S : List Nat) (c : Nat) : Li
     (es ++ [{ src := (label L s).1, dst := i, lag := (label L s).2, cmi := v, p := r.2 }],
      evs ++ [mkEv .edge αb s Z v r], c + o.cost)) ([], [], c)
 
+/-- `np.where(lasso.coef_ != 0)[0].tolist()`: the LASSO selection as a function of the fitted coefficient vector
+(the coefficients themselves are sklearn's: an input of the model) -/
+def selOfCoef (coef : List Rat) : List Nat :=
+  (List.range coef.length).filter (fun i => coef.getD i 0 != 0)
+
+/-- branch of `lasso_optimal_causation_entropy`: LassoLarsIC iff there are more samples than predictors + 1 -/
+def lassoUsesLarsIC (rows ncols : Nat) : Bool := decide (rows > ncols + 1)
+
 inductive Method | standard | alternative | informationLasso | lasso
   deriving Repr, BEq, DecidableEq, Inhabited
 
